@@ -5,7 +5,7 @@
 From Coq Require Import List String QArith.
 From Coq Require Import Floats.PrimFloat.
 From PAFC01 Require Import ModelTree.
-From PAFC12 Require Import Gen Model Proofs Proofs2 Proofs3 Proofs4 Proofs5 Proofs6 Proofs7 Proofs8 Proofs9 Proofs10.
+From PAFC12 Require Import Gen Model Proofs Proofs2 Proofs3 Proofs4 Proofs5 Proofs6 Proofs7 Proofs8 Proofs9 Proofs10 Proofs11.
 Import ListNotations.
 
 (* STRUCTURE, every mode.  The new model has exactly the places (paths) of the old one, and the place that held
@@ -36,7 +36,7 @@ Proof. exact rebuild_sharing. Qed.
 
 (* FIXED VALUES, CLASSES, TUPLES, DERIVED VALUES (full): the new model builds, from corresponding arguments, the
    instance the old model builds. *)
-Theorem C12_instance : forall (V : Type) (bin : binop -> V -> V -> V) (sigma : nat -> option nat)
+Theorem C12_instance : forall (V : Type) (bin : binop -> V -> V -> V) (un : unop -> V -> V) (sigma : nat -> option nat)
     (args args' : nat -> option V) (n : node V),
   wf V n -> forall n', rebuild V sigma n = Some n' ->
   (forall q, In q (prior_ids V n) -> args' (sd sigma q) = args q) ->
@@ -50,7 +50,7 @@ Theorem C12_structure_kept : forall (V : Type) (L : leaves V) cfg specs (md : mo
   ordered_ids V n' = ordered_ids V n /\ prior_count V n' = prior_count V n.
 Proof. exact l_structure_kept. Qed.
 
-Theorem C12_instance_kept : forall (V : Type) (L : leaves V) cfg specs (bin : binop -> V -> V -> V) (md : mode V)
+Theorem C12_instance_kept : forall (V : Type) (L : leaves V) cfg specs (bin : binop -> V -> V -> V) (un : unop -> V -> V) (md : mode V)
     (n n' : node V) sp (args : nat -> option V),
   wf V n -> keeps_ids V md -> lpass V L cfg specs md n = Ok (n', sp) ->
   inst V bin un args n' = inst V bin un args n.
@@ -103,11 +103,42 @@ Theorem C12_width_nonneg : forall (V : Type) (L : leaves V) cfg specs (a r : opt
     s_fam V s = FGaussian /\ l_neg_sigma V L (s_sigma V s) = false /\ l_bad_limits V L (s_lo V s) (s_hi V s) = false.
 Proof. exact l_width_nonneg. Qed.
 
+(* Guard `cls_ok` of the theorems about mapper_from_prior_means (ext-tree): every unary arithmetic prior (-x, abs(x)) of the
+   model has a class for the configuration lookup.  In the code as it is (Gen.modified_prior_cls_falls_back = false)
+   ModifiedPrior.cls is self.prior.cls, which does not exist when the operand is a Prior: the call raises AttributeError
+   (C12_means_unary_over_prior_refuted, finding modified-prior-cls).  Once the class falls back to float the guard holds
+   for every model (C12_cls_ok_repaired) and the theorems are the full statements again. *)
+Theorem C12_cls_ok_repaired : modified_prior_cls_falls_back = true -> forall (V : Type) (n : node V), cls_ok V n.
+Proof. exact (fun R V n => cls_ok_repaired V R n). Qed.
+
+Theorem C12_means_unary_over_prior_refuted :
+  modified_prior_cls_falls_back = false ->
+  exists (n : node Q) specs means,
+    wf Q n /\ is_pm Q n = true /\ specs_cover Q specs n /\
+    qpass (-1000) 1000 [] specs (MMeans (Some 1) None false means) n = Exc EAttr.
+Proof. exact means_unary_over_prior_refuted. Qed.
+
+(* the unary node under the recursive rebuild: operator and attribute name kept, the operand rebuilt, its paths the
+   operand's paths behind the attribute name with every prior replaced by the one given for it *)
+Theorem C12_unary_rebuild : forall (V : Type) (sigma : nat -> option nat) (o : unop) (nm : string) (c : node V),
+  rebuild V sigma (NUn o nm c) = option_map (NUn o nm) (rebuild V sigma c) /\
+  (forall n', wf V c -> rebuild V sigma (NUn o nm c) = Some n' ->
+     exists c', n' = NUn o nm c' /\ walk V c' = ren_walk sigma (walk V c) /\
+                walk V n' = prefix_paths nm (ren_walk sigma (walk V c))).
+Proof. exact unary_rebuild. Qed.
+
+(* ... and fixed to the best-fit instance it becomes the number op(value) *)
+Theorem C12_unary_fixed : forall (V : Type) (bin : binop -> V -> V -> V) (un : unop -> V -> V) (vals : nat -> option V)
+    (o : unop) (nm : string) (c : node V) (a : V),
+  PAFC01.Proofs6.is_const V c = false -> inst V bin un vals c = IV a ->
+  fix_tree V bin un vals (NUn o nm c) = Some (NConst (un o a)).
+Proof. exact unary_fixed. Qed.
+
 (* SUCCESS.  Sufficient conditions for every value type: the lookup name exists, widths are not negative, limits
    are not empty *)
 Theorem C12_total_means_conditions : forall (V : Type) (L : leaves V) cfg specs (a r : option V) (nl : bool)
     (means : list V) (n : node V),
-  wf V n -> is_pm V n = true -> specs_cover V specs n -> llimits_good V L cfg specs ->
+  wf V n -> cls_ok V n -> is_pm V n = true -> specs_cover V specs n -> llimits_good V L cfg specs ->
   (prior_count V n <= List.length means)%nat ->
   (a = None \/ r = None) ->
   (forall x, a = Some x -> l_neg_sigma V L (l_abs_width V L x) = false) ->
@@ -165,7 +196,7 @@ Proof. exact config_one_place_repaired. Qed.
    for every prior of a model / collection, and the holder of a place below a Model (direct attribute or tuple member) is
    that Model, so that class and name describe one and the same place of the prior. *)
 Theorem C12_lookup_class_defined : forall (V : Type) (n : node V) (q : nat),
-  wf V n -> is_pm V n = true -> In q (prior_ids V n) -> lookup_class V q n <> None.
+  wf V n -> cls_ok V n -> is_pm V n = true -> In q (prior_ids V n) -> lookup_class V q n <> None.
 Proof. exact lookup_class_some. Qed.
 
 Theorem C12_holder_class_own : forall (V : Type) (p : path) (n : node V) cls ctor attrs k0 c0 rest,
@@ -176,19 +207,19 @@ Proof. exact holder_class_own. Qed.
 
 (* Full statement "passing succeeds for every finite inferred vector" (any sign), exact arithmetic *)
 Theorem C12_total_absolute : forall (ninf pinf : Q) cfg specs (a : Q) (nl : bool) (means : list Q) (n : node Q),
-  wf Q n -> is_pm Q n = true -> specs_cover Q specs n -> qlimits_good ninf pinf cfg specs ->
+  wf Q n -> cls_ok Q n -> is_pm Q n = true -> specs_cover Q specs n -> qlimits_good ninf pinf cfg specs ->
   (prior_count Q n <= List.length means)%nat -> 0 <= a ->
   exists n' sp, qpass ninf pinf cfg specs (MMeans (Some a) None nl means) n = Ok (n', sp).
 Proof. exact total_absolute_Q. Qed.
 
 Theorem C12_total_relative : forall (ninf pinf : Q) cfg specs (r : Q) (nl : bool) (means : list Q) (n : node Q),
-  wf Q n -> is_pm Q n = true -> specs_cover Q specs n -> qlimits_good ninf pinf cfg specs ->
+  wf Q n -> cls_ok Q n -> is_pm Q n = true -> specs_cover Q specs n -> qlimits_good ninf pinf cfg specs ->
   (prior_count Q n <= List.length means)%nat -> 0 <= r ->
   exists n' sp, qpass ninf pinf cfg specs (MMeans None (Some r) nl means) n = Ok (n', sp).
 Proof. exact total_relative_Q. Qed.
 
 Theorem C12_total_default : forall (ninf pinf : Q) cfg specs (nl : bool) (means : list Q) (n : node Q),
-  wf Q n -> is_pm Q n = true -> specs_cover Q specs n -> qlimits_good ninf pinf cfg specs ->
+  wf Q n -> cls_ok Q n -> is_pm Q n = true -> specs_cover Q specs n -> qlimits_good ninf pinf cfg specs ->
   qmodifiers_good cfg specs ->
   (prior_count Q n <= List.length means)%nat ->
   exists n' sp, qpass ninf pinf cfg specs (MMeans None None nl means) n = Ok (n', sp).
@@ -297,7 +328,7 @@ Theorem C12_replace_total : forall (V : Type) (L : leaves V) cfg specs (m : argu
 Proof. exact l_replace_total. Qed.
 
 (* COMPONENTS FIXED TO THE BEST-FIT INSTANCE: no free parameter left; every assignment builds that instance *)
-Theorem C12_fixed_instance : forall (V : Type) (bin : binop -> V -> V -> V) (vals : nat -> option V) (n : node V),
+Theorem C12_fixed_instance : forall (V : Type) (bin : binop -> V -> V -> V) (un : unop -> V -> V) (vals : nat -> option V) (n : node V),
   wf V n -> forall n', fix_tree V bin un vals n = Some n' ->
   walk V n' = [] /\ forall args', inst V bin un args' n' = inst V bin un vals n.
 Proof. exact fixed_instance. Qed.
@@ -323,3 +354,7 @@ Print Assumptions C12_holder_class_own.
 Print Assumptions C12_own_limits.
 Print Assumptions C12_own_replacement.
 Print Assumptions C12_total_limits.
+Print Assumptions C12_cls_ok_repaired.
+Print Assumptions C12_means_unary_over_prior_refuted.
+Print Assumptions C12_unary_rebuild.
+Print Assumptions C12_unary_fixed.
